@@ -1,4 +1,4 @@
-# C03 defect 1b: get_lowerbound_k takes the width with the user's ignore list only; the synthetic source edge of a
+# C03 regression snippet (defect fixed in /repo) - former defect 1b: get_lowerbound_k takes the width with the user's ignore list only; the synthetic source edge of a
 # node all of whose edges are ignored still carries demand 1 -> bound 2, although one path explains the non-ignored part.
 import sys; sys.path.insert(0, __import__("os").environ.get("FLOWPATHS_REPO", "/repo"))
 import networkx as nx, flowpaths as fp
@@ -6,4 +6,4 @@ G = nx.DiGraph(); G.add_edge("s", "a", flow=3); G.add_edge("b", "a", flow=5); G.
 m = fp.MinFlowDecomp(G, flow_attr="flow", weight_type=int, elements_to_ignore=[("s", "a")])
 print("lower bound:", m.get_lowerbound_k(), "(minimum is 1: b-a-t with weight 5)")
 print("solve():", m.solve(), m.get_solution())
-assert m.get_lowerbound_k() == 2 and len(m.get_solution()["paths"]) == 2
+assert m.get_lowerbound_k() == 1 and len(m.get_solution()["paths"]) == 1   # regression: fixed by 264fceb
